@@ -171,6 +171,46 @@ CHECKS = {
         design="6/C05", technique="TLA+ spec + TLC exhaustive model checking; TLC trace validation of real Router histories"),
 }
 
+# what was added after the first build (rounds of seeded changes, reverted repairs): appended to the texts above
+ADDED = {
+    "C01": "Links may exert back-pressure (drain() returns only once the peer has taken the data); 'storm' operations route several "
+           "updates with single loop iterations / single delivered pieces in between; such traces are judged as unordered across connections.",
+    "C02": "Two real server connections with piecewise interleaved streams are each framed on their own; messages of 66-140 kB "
+           "(no tag end for more than any stream-buffer size) pass through the real BLOB-connection handler.",
+    "C04": "Endpoints may call the router from inside their own callback: every nested message is judged on its own (TraceRouter SubsOK); "
+           "device names include one that contains another and the empty name.",
+    "C05": "Endpoints may call the router from inside their own callback: every nested message is judged on its own (TraceRouter SubsOK); "
+           "device names include one that contains another and the empty name.",
+    "C06": "Client side: ClientMirror.tla models pending assignments and submit; MC_ClientWrite checks P_SubmitExact / P_EditSilent / "
+           "P_PendingSurvivesUpdate and real Vector.submit traces are validated (exactly the members assigned since the last submit). "
+           "End-to-end truth distinguishes the exact from the rendered number; applications assign text and float objects.",
+    "C07": "Outside a write every published update / definition lists the values held afterwards (P_PubCurrent, PubCurrentObs, with "
+           "reset_value as an operation); number elements are declared with and without limits / format. Behaviours of Device.tla "
+           "generated by TLC's simulator on the deployment GenD are replayed into real drivers.",
+    "C08": "Back-pressure bursts (a large BLOB, a small BLOB of another property and a text update routed before anything is delivered), the "
+           "same bytes under another format, one BLOB object mutated in place and published again, payloads of 70 001 and 150 000 bytes in "
+           "the quick tier.",
+    "C09": "Every transition also with a publication that fails on the way (assignfail) and with a vetoing Write handler on each switch; "
+           "SelectOnOK for selected_value(s).",
+    "C10": "A live Number element (instance/elements.py) takes histories of values by assignment, reset_value and client write; the text it "
+           "publishes after each step is judged by the same TLC judge as num_to_str.",
+    "C12": "Sessions also from a sender the router does not know; enableBLOB with and without a property name; well-formed numbers of "
+           "hundreds of digits (found D26); Latin-1 bytes >= 0x80.",
+    "C14": "Several coroutine handlers on one event, stacked / list-form @on, vetoed writes on every exclusive switch configuration, "
+           "TLC-simulated behaviours of Device.tla replayed into real drivers; the order in which pending coroutine handlers run is not compared.",
+    "C15": "The application's own assignments / submits and updates that clear an element are part of the streams; the client's second "
+           "connection is a second real handler and reads of the two connections interleave inside messages (recv2).",
+    "C16": "The application's own assignments / submits and updates that clear an element are part of the streams; the client's second "
+           "connection is a second real handler and reads of the two connections interleave inside messages (recv2).",
+    "C17": "Wait kinds include waiting for an element to be cleared (new value None).",
+    "C18": "A library call that does not return within 120 s of one loop iteration is reported as a violation (watchdog).",
+    "C19": "Bursts include messages longer than 64 KiB and BLOB updates on connections that enabled BLOBs.",
+    "C20": "Long values sharing a 1500-character prefix; an optional attribute present with 0 / empty string against the same message without it.",
+    "C11": "A Buffer.process call that does not return within 30 s is reported as non-termination (wall-clock watchdog besides the callback count).",
+}
+for _k, _t in ADDED.items():
+    CHECKS[_k]["text"] += " Added later: " + _t
+
 PENDING = {
 }
 
